@@ -435,10 +435,18 @@ def corpus_sets():
         {"variant": "Log", "name": None, "doc": None, "sub": None, "args": [
             arg("target"), arg("lines", "opt", "u16", long=True, default=("s", "-1")), arg("depth", "opt", "u16", long=True, default=("v", ("i", 7)))]},
         {"variant": "Fine", "name": None, "doc": None, "sub": None, "args": [arg("n", "opt", "i32", long=True, short=True, default=("s", "-12"))]}]}})
+    # 9: options whose names are `h` / `help`: with the help feature they are shadowed by the built-in help request, without it they are
+    #    ordinary options of the command
+    sets.append({"kind": "enum", "enum": {"title": None, "cmds": [
+        {"variant": "Connect", "name": None, "doc": "Connect", "sub": None, "args": [
+            arg("host", "opt", "u8", long=True, short=True), arg("port", "opt", "u16", long=True, short=True, default=("s", "80"))]},
+        {"variant": "Dump", "name": None, "doc": None, "sub": None, "args": [
+            arg("hex", "flag", "bool", short=True), arg("verbose", "flag", "bool", short=True)]},
+        {"variant": "Topic", "name": None, "doc": None, "sub": None, "args": [arg("help_me", "flag", "bool", long="help"), arg("what", optional=True)]}]}})
     return sets
 
 VARIANTS = ["Get", "GetLed", "GetAdc", "Set", "SetLed", "Go", "Status", "Stat", "Start", "Stop", "Helper", "Hello", "He", "Exit", "Led", "Adc", "A", "Ab", "Abc", "Xy"]
-FIELDS = ["name", "level", "verbose", "file", "value", "item", "count", "mode", "ch", "flag_x", "out_file", "k"]
+FIELDS = ["name", "level", "verbose", "file", "value", "item", "count", "mode", "ch", "flag_x", "out_file", "k", "host", "hex", "help_me"]
 DOCS = [None, None, "Do something", "Short text.", "Two sentences. Here..", "First paragraph\nstill first\n\nSecond paragraph.", "Trailing dots..",
         "One.\n\n\nTwo after two blank lines.", "A\n  \n\n \nB\nb\n\nC..", "\nLeading blank", "Trailing blanks\n\n"]
 
@@ -469,7 +477,7 @@ def rand_enum(rng, depth=0, used=None):
                 long_, short = None, None
                 if kind != "pos":
                     m = rng.randrange(3)
-                    if m in (0, 2): long_ = rng.choice([True, True, f.replace("_", "") + "x", "é" + f])
+                    if m in (0, 2): long_ = rng.choice([True, True, f.replace("_", "") + "x", "é" + f, "help" if rng.randrange(4) == 0 else True])
                     if m in (1, 2): short = rng.choice([True, True, "x", "ж", "€", "H"])
                 optional = rng.randrange(3) == 0
                 default = None
